@@ -11,7 +11,10 @@ package nfs41sim
 
 import (
 	"context"
+	"errors"
 	"fmt"
+	"sort"
+	"strings"
 	"sync"
 	"time"
 
@@ -108,6 +111,68 @@ func (l *errLogger) Log(err error) {
 	l.mu.Unlock()
 }
 
+// ---------------------------------------------------------------- injected faults
+
+// A request can carry one generated one-shot fault: a key
+// "fault:<site>:<status>" in its plan. The fake at that site fails the
+// first call it receives on behalf of that request with that status,
+// before it has done anything, and records that it did. Sites:
+//
+//	openself   countLeaf.VirtualOpenSelf (OPEN of an existing file with any
+//	           claim, READ/WRITE with a special state ID)
+//	openchild  the root directory's VirtualOpenChild (before the real call)
+//	newfile    the file allocator underneath the real directory (OPEN that
+//	           creates a file)
+//	read, write, setattr
+//	           countLeaf.VirtualRead/VirtualWrite (after the generated park)
+//	           and VirtualSetAttributes
+var faultStatuses = map[string]virtual.Status{
+	"io":     virtual.StatusErrIO,
+	"access": virtual.StatusErrAccess,
+	"noent":  virtual.StatusErrNoEnt,
+}
+
+var faultKinds = map[string][]string{
+	"openself":  {"io", "access"},
+	"openchild": {"io", "access", "noent"},
+	"newfile":   {"io"},
+	"read":      {"io"},
+	"write":     {"io"},
+	"setattr":   {"io", "access"},
+}
+
+// takeFaultLocked consumes the fault planned for site in request c.
+func (w *world) takeFaultLocked(c *call, site string) (virtual.Status, bool) {
+	if c == nil {
+		return 0, false
+	}
+	prefix := "fault:" + site + ":"
+	var keys []string
+	for k := range c.plan {
+		if strings.HasPrefix(k, prefix) {
+			keys = append(keys, k)
+		}
+	}
+	if len(keys) == 0 {
+		return 0, false
+	}
+	sort.Strings(keys)
+	delete(c.plan, keys[0])
+	name := keys[0][len(prefix):]
+	c.faultFired, c.faultStatus = site, name
+	return faultStatuses[name], true
+}
+
+func (w *world) takeFault(ctx context.Context, site string) (virtual.Status, bool) {
+	c := callFrom(ctx)
+	if c == nil {
+		return 0, false
+	}
+	w.mu.Lock()
+	defer w.mu.Unlock()
+	return w.takeFaultLocked(c, site)
+}
+
 // ---------------------------------------------------------------- counting leaf
 
 const (
@@ -200,6 +265,9 @@ func (l *countLeaf) VirtualOpenSelf(ctx context.Context, shareAccess virtual.Sha
 	if l.links == 0 && l.outstandingLocked(bitR)+l.outstandingLocked(bitW) == 0 {
 		return virtual.StatusErrStale
 	}
+	if s, ok := l.w.takeFaultLocked(callFrom(ctx), "openself"); ok {
+		return s
+	}
 	l.openLocked(shareAccess)
 	if options.Truncate {
 		l.content = nil
@@ -242,6 +310,9 @@ func (l *countLeaf) VirtualRead(ctx context.Context, buf []byte, offset uint64) 
 	defer l.w.mu.Unlock()
 	l.ioCheckLocked(bitR, "finished", "VirtualRead")
 	l.ioFinished++
+	if s, ok := l.w.takeFaultLocked(callFrom(ctx), "read"); ok {
+		return 0, false, s
+	}
 	b, eof := virtual.BoundReadToFileSize(buf, offset, uint64(len(l.content)))
 	n := copy(b, l.content[min(offset, uint64(len(l.content))):])
 	return n, eof, virtual.StatusOK
@@ -259,6 +330,9 @@ func (l *countLeaf) VirtualWrite(ctx context.Context, buf []byte, offset uint64)
 	defer l.w.mu.Unlock()
 	l.ioCheckLocked(bitW, "finished", "VirtualWrite")
 	l.ioFinished++
+	if s, ok := l.w.takeFaultLocked(callFrom(ctx), "write"); ok {
+		return 0, s
+	}
 	if offset > 1<<16 {
 		return 0, virtual.StatusErrIO
 	}
@@ -288,6 +362,9 @@ func (l *countLeaf) VirtualGetAttributes(ctx context.Context, requested virtual.
 func (l *countLeaf) VirtualSetAttributes(ctx context.Context, in *virtual.Attributes, requested virtual.AttributesMask, attributes *virtual.Attributes) virtual.Status {
 	l.w.mu.Lock()
 	defer l.w.mu.Unlock()
+	if s, ok := l.w.takeFaultLocked(callFrom(ctx), "setattr"); ok {
+		return s
+	}
 	if size, ok := in.GetSizeBytes(); ok {
 		if size > 1<<16 {
 			return virtual.StatusErrIO
@@ -336,6 +413,9 @@ func (a *innerAllocator) NewFile(holeSource pool.HoleSource, isExecutable bool, 
 	w := a.w
 	w.mu.Lock()
 	defer w.mu.Unlock()
+	if _, ok := w.takeFaultLocked(w.creating, "newfile"); ok {
+		return nil, errors.New("nfs41sim: injected file allocation failure")
+	}
 	l := &countLeaf{w: w, id: len(w.leaves), links: 1}
 	if size > 0 && size <= 1<<16 {
 		l.content = make([]byte, size)
@@ -384,7 +464,18 @@ type parkDir struct {
 
 func (d *parkDir) VirtualOpenChild(ctx context.Context, name path.Component, shareAccess virtual.ShareMask, createAttributes *virtual.Attributes, existingOptions *virtual.OpenExistingOptions, requested virtual.AttributesMask, openedFileAttributes *virtual.Attributes) (virtual.Leaf, virtual.AttributesMask, virtual.ChangeInfo, virtual.Status) {
 	d.w.maybePark(ctx, "open_before")
+	if s, ok := d.w.takeFault(ctx, "openchild"); ok {
+		return nil, 0, virtual.ChangeInfo{}, s
+	}
+	// The file allocator has no context: tell it on whose behalf the
+	// directory is about to call it.
+	d.w.mu.Lock()
+	d.w.creating = callFrom(ctx)
+	d.w.mu.Unlock()
 	leaf, respected, changeInfo, s := d.Directory.VirtualOpenChild(ctx, name, shareAccess, createAttributes, existingOptions, requested, openedFileAttributes)
+	d.w.mu.Lock()
+	d.w.creating = nil
+	d.w.mu.Unlock()
 	if s == virtual.StatusOK {
 		if c := callFrom(ctx); c != nil {
 			d.w.mu.Lock()
@@ -395,4 +486,13 @@ func (d *parkDir) VirtualOpenChild(ctx context.Context, name path.Component, sha
 		d.w.maybePark(ctx, "open_after")
 	}
 	return leaf, respected, changeInfo, s
+}
+
+// VirtualRename: the real directory only renames into directories of its
+// own kind, so the decorator of the target is taken off.
+func (d *parkDir) VirtualRename(ctx context.Context, oldName path.Component, newDirectory virtual.Directory, newName path.Component) (virtual.ChangeInfo, virtual.ChangeInfo, virtual.Status) {
+	if pd, ok := newDirectory.(*parkDir); ok {
+		newDirectory = pd.Directory
+	}
+	return d.Directory.VirtualRename(ctx, oldName, newDirectory, newName)
 }
